@@ -95,6 +95,7 @@ type interpreter struct {
 	panicTrace         string
 	inInit             bool
 	depth              int
+	bindInit           value
 }
 
 type deferred struct {
